@@ -788,53 +788,66 @@ fn int_to_float(c: &IntCase, ctx: &Ctx) -> Out {
 
 /// What `Repr::to_f32/to_f64` in rational/src/convert.rs computes, with a *correct* encode unless
 /// `bugs` says otherwise: quotient rounded to an integer of p or p+1 bits, then encoded (second
-/// rounding).  Returns magnitude bits.
-fn rbig_two_step_model(x: &Q, fmt: Fmt, bugs: EncBugs) -> u64 {
+/// rounding).  Returns (magnitude bits, error of the magnitude: None exact / Some(true) too large).
+fn rbig_two_step_model(x: &Q, fmt: Fmt, bugs: EncBugs) -> (u64, Option<bool>) {
     let a = x.abs();
     let shift = a.numer().bits() as i64 - a.denom().bits() as i64 - fmt.p;
     if shift >= fmt.emax {
-        return fmt.inf_bits();
+        return (fmt.inf_bits(), Some(true));
     }
     let cutoff = if fmt == F32 { -149 - 25 } else { -1074 - 53 };
     if shift < cutoff {
-        return 0;
+        return (0, Some(false));
     }
-    let man = round_rational(&mul_pow2(&a, -shift), Mode::HalfEven);
-    encode_model(man.to_u128().unwrap(), shift, fmt, bugs).0
+    let scaled = mul_pow2(&a, -shift);
+    let man = round_rational(&scaled, Mode::HalfEven);
+    let e1 = match Q::from_integer(man.clone()).cmp(&scaled) {
+        Ordering::Equal => None,
+        Ordering::Greater => Some(true),
+        Ordering::Less => Some(false),
+    };
+    let (mb, mo) = encode_model(man.to_u128().unwrap(), shift, fmt, bugs);
+    let flag = match mo {
+        Ordering::Equal => e1,
+        Ordering::Greater => Some(true),
+        Ordering::Less => Some(false),
+    };
+    (mb, flag)
 }
 
-fn rat_value_wrong(out: &mut Out, ctx: &Ctx, what: &str, o: &Obs, x: &Q) {
+fn rat_wrong(out: &mut Out, ctx: &Ctx, what: &str, o: &Obs, x: &Q) {
     let got = o.bits & (o.fmt.sign_mask() - 1);
-    let sign_ok = x.is_negative() == o.fmt.neg(o.bits) || got == 0;
+    let neg = x.is_negative();
+    let sign_ok = neg == o.fmt.neg(o.bits) || got == 0;
     let off = ulps_off(o, x);
-    if sign_ok && off == 1 {
-        let none = EncBugs::default();
-        if rbig_two_step_model(x, o.fmt, none) == got {
+    let value_ok = value_matches(o, x);
+    let detail = || format!("{} wrong ({off} ulp): {}", if value_ok { "flag" } else { "value" }, describe(what, o, x));
+    if sign_ok && off <= 1 && !o.fmt.is_nan(o.bits) {
+        let m = |b: EncBugs| {
+            let (mb, mf) = rbig_two_step_model(x, o.fmt, b);
+            mb == got && mf.map(|up| up != neg) == o.flag
+        };
+        if m(EncBugs::default()) {
             // C06/rbig-to-float-double-rounding: the quotient is rounded to an integer (p or p+1
-            // bits) before `encode` rounds again
-            return ctx.known_or_fail(out, "C06/rbig-to-float-double-rounding", || describe(what, o, x));
+            // bits, or more than the subnormal result keeps) before `encode` rounds again
+            return ctx.known_or_fail(out, "C06/rbig-to-float-double-rounding", detail);
         }
-        if rbig_two_step_model(x, o.fmt, EncBugs { flush_binade: true, drop_bit: false }) == got {
-            return ctx.known_or_fail(out, "C06/encode-underflow-threshold", || describe(what, o, x));
+        if m(EncBugs { flush_binade: true, drop_bit: false }) {
+            return ctx.known_or_fail(out, "C06/encode-underflow-threshold", detail);
         }
-        if rbig_two_step_model(x, o.fmt, EncBugs { flush_binade: false, drop_bit: true }) == got {
-            return ctx.known_or_fail(out, "C06/encode-sticky-bit-dropped", || describe(what, o, x));
-        }
-        if rbig_two_step_model(x, o.fmt, EncBugs { flush_binade: true, drop_bit: true }) == got {
-            return ctx.known_or_fail(out, "C06/encode-sticky-bit-dropped", || describe(what, o, x));
+        if m(EncBugs { flush_binade: false, drop_bit: true }) || m(EncBugs { flush_binade: true, drop_bit: true }) {
+            return ctx.known_or_fail(out, "C06/encode-sticky-bit-dropped", detail);
         }
     }
-    out.fail(format!("value wrong ({off} ulp): {}", describe(what, o, x)));
+    out.fail(detail());
 }
 
 fn judge_rat(out: &mut Out, ctx: &Ctx, what: &str, r: Result<Obs, String>, x: &Q) {
     match r {
         Err(m) => rat_panic(out, ctx, what, &m, x),
         Ok(o) => {
-            if !value_matches(&o, x) {
-                rat_value_wrong(out, ctx, what, &o, x);
-            } else if !flag_matches(&o, x) {
-                out.fail(format!("flag wrong: {}", describe(what, &o, x)));
+            if !value_matches(&o, x) || !flag_matches(&o, x) {
+                rat_wrong(out, ctx, what, &o, x);
             }
             if o.flag.is_some() {
                 out.nontrivial(true);
@@ -911,7 +924,20 @@ fn rational_to_float(c: &RatCase, ctx: &Ctx) -> Out {
     out
 }
 
-fn try_float_from_rat(out: &mut Out, _ctx: &Ctx, what: &str, fmt: Fmt, r: Result<Result<u64, ConversionError>, String>, x: &Q) {
+/// C06/float-from-rbig-numerator-unwrap: `TryFrom<RBig> for f32/f64` passes the whole numerator to
+/// `encode` through `try_into().unwrap()` (i32/i64): panics for every dyadic value whose numerator
+/// does not fit, representable (2^40) or not.
+fn try_float_from_rat(out: &mut Out, ctx: &Ctx, what: &str, fmt: Fmt, r: Result<Result<u64, ConversionError>, String>, x: &Q) {
+    if let Err(m) = &r {
+        let nm = normalise(m);
+        let lim = if fmt == F32 { 31 } else { 63 };
+        let top = x.numer().magnitude().bits() as i64 - (x.denom().magnitude().bits() as i64 - 1);
+        let dyadic = x.denom().magnitude().count_ones() == 1;
+        // the coded range test lets the value through: lb <= top <= ub
+        if nm.contains("called `Result::unwrap()` on an `Err` value: OutOfBounds") && nm.contains("rational/src/convert.rs") && dyadic && x.numer().magnitude().bits() > lim && top <= fmt.emax && top >= fmt.qmin {
+            return ctx.known_or_fail(out, "C06/float-from-rbig-numerator-unwrap", || format!("{what} panicked: {nm} (x = {})", show_q(x)));
+        }
+    }
     judge_try_float(out, what, fmt, r, x, true);
 }
 
@@ -1068,22 +1094,121 @@ struct FbigSite<'a> {
     xs: String,
 }
 
-fn fbig_value_wrong(out: &mut Out, _ctx: &Ctx, site: &FbigSite, o: &ObsR, x: &Q) {
-    out.fail(format!("value wrong: {} [base {}, exponent {}]", describe_r(site.what, o, x, site.mode, &site.xs), site.base, site.exp));
+/// x rounded to p significant bits under `mode`, exponent unbounded: (n, q) with value n·2^q
+fn round_to_bits(x: &Q, p: i64, mode: Mode) -> (BigInt, i64) {
+    if x.is_zero() {
+        return (BigInt::zero(), 0);
+    }
+    let q = floor_log2(&x.abs()) - (p - 1);
+    (round_rational(&mul_pow2(x, -q), mode), q)
 }
 
-fn fbig_panic(out: &mut Out, _ctx: &Ctx, site: &FbigSite, m: &str) {
-    out.fail(format!("{} panicked: {} [base {}, x = {}]", site.what, normalise(m), site.base, site.xs));
+fn pow2_base(base: u64) -> bool {
+    base.is_power_of_two()
 }
 
-fn judge_rounded(out: &mut Out, ctx: &Ctx, site: &FbigSite, r: Result<ObsR, String>, x: &Q) {
+fn fbig_wrong(out: &mut Out, ctx: &Ctx, site: &FbigSite, o: &ObsR, x: &Q) {
+    let fmt = o.fmt;
+    let value_ok = rounded_value_ok(o, x, site.mode);
+    let detail = || format!("{} wrong: {} [base {}, exponent {}]", if value_ok { "flag" } else { "value" }, describe_r(site.what, o, x, site.mode, &site.xs), site.base, site.exp);
+    if fmt.is_nan(o.bits) {
+        return out.fail(detail());
+    }
+    let gotmag = o.bits & (fmt.sign_mask() - 1);
+    let sign_ok = gotmag == 0 || fmt.neg(o.bits) == x.is_negative();
+    // float/src/convert.rs: the value is first brought to p bits in base 2 under the documented
+    // mode (exponent unbounded) — exactly (repr_round, repr_div) unless convert_base takes its
+    // ln/exp route —, then `into_f32/f64_internal` hands it to `encode`, which rounds again,
+    // to nearest-even, when the result is below the normal range.
+    let large_path = !pow2_base(site.base) && site.exp.abs() > 38;
+    let correct_first = round_to_bits(x, fmt.p, site.mode);
+    let below_normal = correct_first.0.magnitude().bits() as i64 + correct_first.1 <= fmt.qmin + fmt.p - 1;
+    let mut firsts = vec![(correct_first.clone(), true)];
+    if large_path {
+        for md in [Mode::Down, Mode::Up] {
+            let f = round_to_bits(x, fmt.p, md);
+            if f != correct_first {
+                firsts.push((f, false));
+            }
+        }
+    }
+    if sign_ok {
+        for ((n, q), is_correct) in &firsts {
+            let y = mul_pow2(&Q::from_integer(n.clone()), *q);
+            let f1 = match y.cmp(x) {
+                Ordering::Equal => None,
+                Ordering::Greater => Some(Rounding::AddOne),
+                Ordering::Less => Some(Rounding::SubOne),
+            };
+            let mag = n.magnitude().to_u128().unwrap();
+            let m = |b: EncBugs| {
+                let (mb, mo) = encode_model(mag, *q, fmt, b);
+                mb == gotmag && (large_path || o.flag == if mo != Ordering::Equal { Some(Rounding::NoOp) } else { f1 })
+            };
+            let id = if m(EncBugs::default()) {
+                if !*is_correct || large_path && !below_normal {
+                    // C06/convert-base-large-exp-approximate: |exponent| > 38 goes through ln/exp at twice
+                    // the precision: last bit and flag are those of an approximation
+                    Some("C06/convert-base-large-exp-approximate")
+                } else if below_normal {
+                    Some("C06/fbig-to-float-subnormal-second-rounding")
+                } else {
+                    None
+                }
+            } else if m(EncBugs { flush_binade: true, drop_bit: false }) {
+                Some("C06/encode-underflow-threshold")
+            } else if m(EncBugs { flush_binade: false, drop_bit: true }) || m(EncBugs { flush_binade: true, drop_bit: true }) {
+                Some("C06/encode-sticky-bit-dropped")
+            } else {
+                None
+            };
+            if let Some(id) = id {
+                return ctx.known_or_fail(out, id, detail);
+            }
+        }
+    }
+    out.fail(detail());
+}
+
+fn fbig_panic(out: &mut Out, ctx: &Ctx, site: &FbigSite, m: &str, sig: &BigInt, p: i64) {
+    let nm = normalise(m);
+    let detail = || format!("{} panicked: {nm} [base {}, x = {}]", site.what, site.base, site.xs);
+    let wide_assert = nm.contains("assertion failed: self.significand.bit_len() <= #") && nm.contains("float/src/convert.rs");
+    let e = site.exp;
+    if site.base != 2 && pow2_base(site.base) {
+        // C06/convert-base-pow-shortcut-unrounded: "B is a power of NewB" returns
+        // Exact(Repr::new(significand, exp·n)) without rounding to the context precision
+        if wide_assert && sig.magnitude().bits() as i64 > p {
+            return ctx.known_or_fail(out, "C06/convert-base-pow-shortcut-unrounded", detail);
+        }
+    } else if !pow2_base(site.base) && (0..=38).contains(&e) {
+        // C06/convert-base-small-exp-unrounded: 0 <= exponent <= 38 evaluates significand·B^exponent
+        // and returns it as Exact without rounding to the context precision
+        let mut n = sig.magnitude() * bpow(site.base, e as u64);
+        if !n.is_zero() {
+            n >>= n.trailing_zeros().unwrap() as usize;
+        }
+        if wide_assert && n.bits() as i64 > p {
+            return ctx.known_or_fail(out, "C06/convert-base-small-exp-unrounded", detail);
+        }
+    } else if !pow2_base(site.base) && (-38..0).contains(&e) {
+        // C06/convert-base-div-wide-significand: -38 <= exponent < 0 calls repr_div(significand, B^-exponent)
+        // whose precondition lhs.digits() <= precision + rhs.digits() the caller does not establish
+        let lhs_digits = digits(sig.magnitude(), 2);
+        let rhs_digits = bpow(site.base, (-e) as u64).bits();
+        if nm.contains("assertion failed: lhs.digits() <= self.precision + rhs.digits()") && nm.contains("float/src/div.rs") && lhs_digits as i64 > p + rhs_digits as i64 {
+            return ctx.known_or_fail(out, "C06/convert-base-div-wide-significand", detail);
+        }
+    }
+    out.fail(detail());
+}
+
+fn judge_rounded(out: &mut Out, ctx: &Ctx, site: &FbigSite, r: Result<ObsR, String>, x: &Q, sig: &BigInt, o_p: i64) {
     match r {
-        Err(m) => fbig_panic(out, ctx, site, &m),
+        Err(m) => fbig_panic(out, ctx, site, &m, sig, o_p),
         Ok(o) => {
-            if !rounded_value_ok(&o, x, site.mode) {
-                fbig_value_wrong(out, ctx, site, &o, x);
-            } else if !rounded_flag_ok(&o, x) {
-                out.fail(format!("flag wrong: {}", describe_r(site.what, &o, x, site.mode, &site.xs)));
+            if !rounded_value_ok(&o, x, site.mode) || !rounded_flag_ok(&o, x) {
+                fbig_wrong(out, ctx, site, &o, x);
             }
             if o.flag.is_some() {
                 out.nontrivial(true);
@@ -1125,10 +1250,11 @@ fn fbig_to_float<R: ModeTag, const B: Word>(c: &FlCase, ctx: &Ctx) -> Out {
     out.label(tie_label(&x, F64));
     out.nontrivial(true); // crosses a type family
     let site = |what: &'static str, mode: Mode| FbigSite { what, base, mode, exp: e, xs: xs.clone() };
-    judge_rounded(&mut out, ctx, &site("FBig::to_f32", R::MODE), catch(|| obsr32(f.to_f32())), &x);
-    judge_rounded(&mut out, ctx, &site("FBig::to_f64", Mode::HalfEven), catch(|| obsr64(f.to_f64())), &x);
-    judge_rounded(&mut out, ctx, &site("Repr::to_f32", Mode::HalfEven), catch(|| obsr32(rp.to_f32())), &x);
-    judge_rounded(&mut out, ctx, &site("Repr::to_f64", Mode::HalfEven), catch(|| obsr64(rp.to_f64())), &x);
+    let sig = i2n(rp.significand());
+    judge_rounded(&mut out, ctx, &site("FBig::to_f32", R::MODE), catch(|| obsr32(f.to_f32())), &x, &sig, 24);
+    judge_rounded(&mut out, ctx, &site("FBig::to_f64", Mode::HalfEven), catch(|| obsr64(f.to_f64())), &x, &sig, 53);
+    judge_rounded(&mut out, ctx, &site("Repr::to_f32", Mode::HalfEven), catch(|| obsr32(rp.to_f32())), &x, &sig, 24);
+    judge_rounded(&mut out, ctx, &site("Repr::to_f64", Mode::HalfEven), catch(|| obsr64(rp.to_f64())), &x, &sig, 53);
     if B == 2 {
         let f2: FBig<R, 2> = c.x.fbig::<R, 2>(prec);
         let r2 = f2.repr().clone();
@@ -1199,7 +1325,27 @@ fn to_float_case(base: u64) -> impl Strategy<Value = ToFloatCase> {
     })
 }
 
-fn to_float_wrong(out: &mut Out, _ctx: &Ctx, what: &str, truth: &Truth, res: &Res, p: u64, mode: Mode, broken: &[Broken]) {
+/// C06/rbig-to-fbig-double-rounding: `Repr::to_float` (rational/src/third_party/dashu_float.rs)
+/// scales by B^shift with shift from floor-logarithms, so the integer quotient has p or p+1
+/// digits; it is rounded to an integer and `convert_int` rounds again to p digits.
+fn to_float_wrong(out: &mut Out, ctx: &Ctx, what: &str, truth: &Truth, res: &Res, p: u64, mode: Mode, broken: &[Broken], parts: &(BigInt, BigUint), x: &Q) {
+    let base = res.val.base;
+    if mode.is_half() && !parts.0.is_zero() && broken.iter().all(|b| b.clause == "error-bound" || b.clause == "representable") {
+        let nd = digits(parts.0.magnitude(), base) - 1;
+        let dd = digits(&parts.1, base) - 1;
+        let shift = if nd >= p + dd { 0 } else { p + dd - nd };
+        let scaled = x * Q::from_integer(BigInt::from(bpow(base, shift)));
+        let q1 = round_rational(&scaled, mode);
+        let d1 = digits(q1.magnitude(), base);
+        if d1 > p {
+            let unit = Q::from_integer(BigInt::from(bpow(base, d1 - p)));
+            let q2 = round_rational(&(Q::from_integer(q1.clone()) / &unit), mode);
+            let model = Q::from_integer(q2) * unit / Q::from_integer(BigInt::from(bpow(base, shift)));
+            if res.val.to_rational() == model {
+                return ctx.known_or_fail(out, "C06/rbig-to-fbig-double-rounding", || format!("{what} (base {base}, {}, p={p}): true = {}, got = {}", mode.name(), truth.show(), res.val.show()));
+            }
+        }
+    }
     report(out, what, truth, res, p, mode, broken);
 }
 
@@ -1220,22 +1366,19 @@ fn rbig_to_float<R: ModeTag, const B: Word>(c: &ToFloatCase, ctx: &Ctx) -> Out {
     let r = RBig::from_parts(c.num.ibig(), c.den.ubig());
     let l = Relaxed::from_parts(c.num.ibig(), c.den.ubig());
     let mut inexact = false;
-    let runs: [(&str, Result<Rounded<FBig<R, B>>, String>); 2] = [("RBig::to_float", catch(|| r.to_float::<R, B>(c.p as usize))), ("Relaxed::to_float", catch(|| l.to_float::<R, B>(c.p as usize)))];
-    for (what, got) in runs {
+    let parts_r = (i2n(r.numerator()), u2n(r.denominator()));
+    let parts_l = (i2n(l.numerator()), u2n(l.denominator()));
+    let runs: [(&str, Result<Rounded<FBig<R, B>>, String>, &(BigInt, BigUint)); 2] = [("RBig::to_float", catch(|| r.to_float::<R, B>(c.p as usize)), &parts_r), ("Relaxed::to_float", catch(|| l.to_float::<R, B>(c.p as usize)), &parts_l)];
+    for (what, got, parts) in runs {
         match got {
             Err(m) => out.fail(format!("{what}::<{}, {base}>({p}) panicked: {} (x = {})", R::MODE.name(), normalise(&m), show_q(&x))),
             Ok(rounded) => match res_of(&rounded) {
                 Err(e) => out.fail(format!("{what}: {e}")),
                 Ok(res) => {
                     inexact |= res.flag.is_some();
-                    if !truth.is_zero() {
-                        let e = truth.floor_log();
-                        // does the integer quotient computed by to_float carry more than p digits?
-                        let _ = e;
-                    }
                     let broken = contract(&truth, &res, p, R::MODE);
                     if !broken.is_empty() {
-                        to_float_wrong(&mut out, ctx, what, &truth, &res, p, R::MODE, &broken);
+                        to_float_wrong(&mut out, ctx, what, &truth, &res, p, R::MODE, &broken, parts, &x);
                     }
                 }
             },
@@ -1299,7 +1442,9 @@ fn to_int<R: ModeTag, const B: Word>(c: &FlCase, _ctx: &Ctx) -> Out {
     let base = B as u64;
     let sci = c.x.sci(base);
     let x = sci.to_rational();
-    let prec = fl_precision(c, base);
+    // precision >= -exponent: the class "precision < -exponent, |x| < B^-2" of FBig::to_int is the
+    // known finding C10/small-fraction-scale (C10 covers to_int in depth); excluded by construction
+    let prec = fl_precision(c, base).max((-c.x.exp).max(0) as usize);
     let f: FBig<R, B> = c.x.fbig::<R, B>(prec);
     let rp = f.repr().clone();
     out.nontrivial(!x.is_integer());
@@ -1702,11 +1847,32 @@ fn lossless_big<R: ModeTag, const B: Word>(c: &FlCase, ctx: &Ctx) -> Out {
     out
 }
 
-fn rbig_to_ubig(out: &mut Out, _ctx: &Ctx, what: &str, xs: &str, r: Result<Result<UBig, ConversionError>, String>, want: Option<&BigInt>, _x: &Q) {
+/// C06/ubig-from-rbig-tests-numerator: `impl TryFrom<Repr> for UBig` (rational/src/convert.rs)
+/// tests `numerator.is_one()` where `denominator.is_one()` is meant: Ok(1) for every 1/d,
+/// Err(LossOfPrecision) for every non-negative integer other than 1.
+fn rbig_to_ubig(out: &mut Out, ctx: &Ctx, what: &str, xs: &str, r: Result<Result<UBig, ConversionError>, String>, want: Option<&BigInt>, x: &Q) {
+    if !x.is_negative() {
+        // what the coded test answers (x in lowest terms; Relaxed is called with coprime parts here)
+        let coded: Option<BigInt> = if x.numer().is_one() { Some(BigInt::one()) } else { None };
+        let got: Option<Option<BigInt>> = match &r {
+            Ok(Ok(g)) => Some(Some(BigInt::from(u2n(g)))),
+            Ok(Err(ConversionError::LossOfPrecision)) => Some(None),
+            _ => None,
+        };
+        if got == Some(coded.clone()) && coded.as_ref() != want {
+            return ctx.known_or_fail(out, "C06/ubig-from-rbig-tests-numerator", || format!("{what}({xs}) = {:?}, want {:?}", r, want));
+        }
+    }
     expect_big(out, what, xs, r, want, |g| BigInt::from(u2n(g)));
 }
 
-fn relaxed_unreduced(out: &mut Out, _ctx: &Ctx, what: &str, xs: &str, r: Result<Result<IBig, ConversionError>, String>, want: Option<&BigInt>) {
+/// C06/relaxed-to-int-unreduced: `TryFrom<Relaxed> for IBig` (and through it the primitives) tests
+/// `denominator.is_one()` on the unreduced parts, so an integer stored as 3n/3 is refused with
+/// LossOfPrecision (TryFrom<Relaxed> for f32/f64 canonicalises first).
+fn relaxed_unreduced(out: &mut Out, ctx: &Ctx, what: &str, xs: &str, r: Result<Result<IBig, ConversionError>, String>, want: Option<&BigInt>) {
+    if let (Ok(Err(ConversionError::LossOfPrecision)), Some(_)) = (&r, want) {
+        return ctx.known_or_fail(out, "C06/relaxed-to-int-unreduced", || format!("{what}({xs}) = Err(LossOfPrecision) for an integer value"));
+    }
     expect_big(out, what, xs, r, want, |g| i2n(g));
 }
 
@@ -1889,8 +2055,8 @@ macro_rules! from_float_arm {
 }
 
 /// `TryFrom<RBig> for f32/f64` on a value that came from that very float type
-fn rbig_back_to_float(out: &mut Out, _ctx: &Ctx, what: &str, fmt: Fmt, r: Result<Result<u64, ConversionError>, String>, x: &Q) {
-    judge_try_float(out, what, fmt, r, x, true);
+fn rbig_back_to_float(out: &mut Out, ctx: &Ctx, what: &str, fmt: Fmt, r: Result<Result<u64, ConversionError>, String>, x: &Q) {
+    try_float_from_rat(out, ctx, what, fmt, r, x);
 }
 
 fn from_float(c: &FloatBits, ctx: &Ctx) -> Out {
